@@ -310,6 +310,10 @@ def explain_text(xout):
     if isinstance(exp, list):
         exp = {}
     out = {"line": d.get("line"), "expected": {}, "logged": {}}
+    if "snapshot" in d:
+        out["snapshot"] = {e["k"]: e["n"] for e in d["snapshot"] if e["n"] != 0}
+        out["goroutines_excess"] = d.get("gor")
+        out["joined_in_spec"] = d.get("joined")
     for s, ms in (exp.items() if isinstance(exp, dict) else []):
         if ms:
             out["expected"][s] = [compact(m) for m in ms]
